@@ -19,7 +19,7 @@ def bondv(it, d, amount, ts, weight):
     return it.mk(WL + 'Bond', asset=nasset(it, d, amount), timestamp=TS(ts), weight=U128(weight))
 
 
-def setup_lair(it, nrec=2, claimable_empty=True, with_bond=True, owner='owner', bob=True):
+def setup_lair(it, nrec=2, claimable_empty=True, with_bond=True, owner='owner', bob=True, distributor=None):
     """acting user alice on denom DENOMS[0]; nrec pending unbonding records with strictly increasing symbolic timestamps;
     the rest of the world as symbolic aggregates; Inv: balance = bonded + unbonding per denom, GLOBAL consistent."""
     c = it.ctx; w = it.world; w.contract = LAIR
@@ -27,7 +27,7 @@ def setup_lair(it, nrec=2, claimable_empty=True, with_bond=True, owner='owner', 
     period = c.sym('period', 64); growth = c.sym('growth', 128)
     c.assume(growth <= E18)
     w.item('config', it.mk(WL + 'Config', owner=ADDR(owner), unbonding_period=U64(period), growth_rate=DEC(growth),
-                           bonding_assets=VecV([nat(it, x) for x in DENOMS]), fee_distributor_addr=ADDR(DISTRIBUTOR)))
+                           bonding_assets=VecV([nat(it, x) for x in DENOMS]), fee_distributor_addr=ADDR(DISTRIBUTOR if distributor is None else distributor)))
     bond_amt = c.sym('bond_amt', 128, lo=1); bts = c.sym('bond_ts', 64); bw = c.sym('bond_weight', 128)
     bonds = w.map('bond', [([Str('alice'), Str(d)], bondv(it, d, bond_amt, bts, bw))] if with_bond else [])
     recs = []; ts = []; us = []
